@@ -309,6 +309,8 @@ def body(led):
     if only:
         models = [m for m in models if m in only.split(',')]
     parallel.run(led, model_job, models)
+    from . import c17_py
+    c17_py.check(led)
     ok, _ = K.compare(real('WX') * real('WX'), real('WX') * real('WX') * 0.5)
     led.canary('WX^2 == WX^2/2', not ok)
 
